@@ -516,7 +516,9 @@ pub mod sched {
 
     /// inner thread(s): a second recoverer cleaning up the same dead owner, or the live owner
     /// acquiring / releasing
-    pub fn rhook<const CAP: usize>() {
+    /// KINDS selects what the inner thread may do (bit 0: a second recoverer, bit 1: the live owner
+    /// acquires, bit 2: the live owner releases); arms that are not selected are not encoded
+    pub fn rhook<const CAP: usize, const KINDS: u8>() {
         unsafe {
             let b = &mut RBOOK;
             if b.in_inner == 1 {
@@ -528,14 +530,15 @@ pub mod sched {
                 b.inner_ops += 1;
                 let s = rset::<CAP>();
                 let what: u8 = kani::any();
-                if what == 0 {
+                kani::assume(what < 3 && (KINDS >> what) & 1 == 1);
+                if KINDS & 1 != 0 && what == 0 {
                     s.recover(ReleaseMode::Default, |o, _| o == OwnerId::new(DEAD).unwrap(), |o, n| {
                         assert!(o == OwnerId::new(DEAD).unwrap());
                         assert!(RBOOK.own[n] == DEAD, "c09: recovery returned an index the dead owner does not hold");
                         RBOOK.own[n] = 0;
                         RBOOK.inner_recovered += 1;
                     });
-                } else if what == 1 {
+                } else if KINDS & 2 != 0 && what == 1 {
                     match s.acquire(OwnerId::new(LIVE).unwrap()) {
                         Ok(n) => {
                             assert!(n < CAP && b.own[n] == 0, "c09: robust index handed out twice");
@@ -543,7 +546,7 @@ pub mod sched {
                         }
                         Err(_) => {}
                     }
-                } else {
+                } else if KINDS & 4 != 0 {
                     let n: usize = kani::any();
                     kani::assume(n < CAP);
                     if b.own[n] == LIVE {
@@ -557,7 +560,7 @@ pub mod sched {
         }
     }
 
-    pub fn robust_recover_race<const CAP: usize, const INNER: usize>() {
+    pub fn robust_recover_race<const CAP: usize, const INNER: usize, const KINDS: u8>() {
         let s = StaticRobustUniqueIndexSet::<CAP>::new();
         unsafe {
             RPTR = &s as *const _ as usize;
@@ -573,7 +576,7 @@ pub mod sched {
                 k += 1;
             }
             RBOOK.budget = INNER;
-            verif_set_hook(rhook::<CAP>);
+            verif_set_hook(rhook::<CAP, KINDS>);
             let mut mine = 0;
             s.recover(ReleaseMode::Default, |o, _| o == OwnerId::new(DEAD).unwrap(), |o, n| {
                 assert!(o == OwnerId::new(DEAD).unwrap());
@@ -604,11 +607,17 @@ pub mod sched {
                 i += 1;
             }
             assert!(mine + RBOOK.inner_recovered == ndead, "c09: dead owner's indices recovered more or less than once");
-            kani::cover!(RBOOK.inner_recovered > 0 && mine > 0, "two recoverers shared the dead owner's indices");
+            if KINDS & 1 != 0 {
+                kani::cover!(RBOOK.inner_recovered > 0 && mine > 0, "two recoverers shared the dead owner's indices");
+            } else {
+                kani::cover!(holders > 0 && mine > 0, "the live owner acquired an index during the recovery and kept it");
+            }
             kani::cover!(RBOOK.inner_ops >= 2, "two inner operations ran during the recovery");
         }
     }
 
-    proof!(5, fn c09_s_robust_recover_race() { robust_recover_race::<2, 2>(); canaries(); });
-    proof!(7, fn c09_s_robust_recover_race_deep() { robust_recover_race::<2, 3>(); canaries(); });
+    proof!(5, fn c09_s_robust_recover_vs_recover() { robust_recover_race::<2, 2, 3>(); canaries(); });
+    proof!(5, fn c09_s_robust_recover_vs_owner() { robust_recover_race::<2, 2, 6>(); canaries(); });
+    proof!(5, fn c09_s_robust_recover_race() { robust_recover_race::<2, 2, 7>(); canaries(); });
+    proof!(7, fn c09_s_robust_recover_race_deep() { robust_recover_race::<2, 3, 7>(); canaries(); });
 }
